@@ -1,0 +1,30 @@
+//go:build verif
+// +build verif
+
+package minter
+
+import (
+	"github.com/MinterTeam/minter-go-node/coreV2/appdb"
+	tmNode "github.com/tendermint/tendermint/node"
+)
+
+// VerifSetTmNode sets the Tendermint node without building an rpc client.
+func (blockchain *Blockchain) VerifSetTmNode(node *tmNode.Node) {
+	blockchain.tmNode = node
+}
+
+// VerifStopped reports whether the application decided to stop (halt block, unknown version).
+func (blockchain *Blockchain) VerifStopped() bool {
+	return blockchain.stopped
+}
+
+// VerifAppDB returns the application DB.
+func (blockchain *Blockchain) VerifAppDB() *appdb.AppDB {
+	return blockchain.appDB
+}
+
+// VerifWaitSnapshots waits for running state-sync snapshot goroutines.
+func (blockchain *Blockchain) VerifWaitSnapshots() {
+	blockchain.wgSnapshot.Wait()
+	blockchain.appDB.WG.Wait()
+}
